@@ -43,12 +43,49 @@ func packageFieldNames(dir string) map[string]bool {
 	return names
 }
 
+// packageVarNames collects the names of the package-level variables declared in the package
+// directory (non-test files).
+func packageVarNames(dir string) map[string]bool {
+	names := map[string]bool{}
+	files, _ := filepath.Glob(filepath.Join(dir, "*.go"))
+	for _, fn := range files {
+		if strings.HasSuffix(fn, "_test.go") {
+			continue
+		}
+		fset := token.NewFileSet()
+		f, err := parser.ParseFile(fset, fn, nil, 0)
+		if err != nil {
+			continue
+		}
+		for _, d := range f.Decls {
+			gd, ok := d.(*ast.GenDecl)
+			if !ok || gd.Tok != token.VAR {
+				continue
+			}
+			for _, sp := range gd.Specs {
+				if vs, ok := sp.(*ast.ValueSpec); ok {
+					for _, n := range vs.Names {
+						if n.Name != "_" {
+							names[n.Name] = true
+						}
+					}
+				}
+			}
+		}
+	}
+	return names
+}
+
 // instrumentAccesses inserts, before every statement, one vrt.F / vrt.M call per plain
 // field access / map access the statement itself performs (not its nested blocks, which
 // are handled on their own). The hooks decide at run time (by reflection) whether the
 // operand really is a pointer-to-struct field or a map; anything else is ignored, so the
 // pass can only under-approximate.
-func instrumentAccesses(fset *token.FileSet, f *ast.File, fields map[string]bool) bool {
+//
+// With pkgVars != nil, plain uses of package-level variables and of local variables captured by
+// a function literal are recorded too (vrt.V): the scratch buffer hoisted out of a function, the
+// value cached in a closure.
+func instrumentAccesses(fset *token.FileSet, f *ast.File, fields map[string]bool, pkgVars map[string]bool) bool {
 	pkgNames := map[string]bool{}
 	for _, imp := range f.Imports {
 		p, _ := strconv.Unquote(imp.Path.Value)
@@ -58,7 +95,18 @@ func instrumentAccesses(fset *token.FileSet, f *ast.File, fields map[string]bool
 		}
 		pkgNames[name] = true
 	}
-	in := &instr{fset: fset, fields: fields, pkgNames: pkgNames}
+	in := &instr{fset: fset, fields: fields, pkgNames: pkgNames, pkgVars: pkgVars}
+	if pkgVars != nil {
+		ast.Inspect(f, func(n ast.Node) bool {
+			switch n := n.(type) {
+			case *ast.FuncLit:
+				in.funcLits = append(in.funcLits, [2]token.Pos{n.Pos(), n.End()})
+			case *ast.FuncDecl:
+				in.funcDecls = append(in.funcDecls, [2]token.Pos{n.Pos(), n.End()})
+			}
+			return true
+		})
+	}
 	ast.Inspect(f, func(n ast.Node) bool {
 		switch n := n.(type) {
 		case *ast.BlockStmt:
@@ -98,6 +146,51 @@ type instr struct {
 	fields   map[string]bool
 	pkgNames map[string]bool
 	used     bool
+	// variable instrumentation (nil pkgVars = off)
+	pkgVars   map[string]bool
+	funcLits  [][2]token.Pos
+	funcDecls [][2]token.Pos
+}
+
+// sharedVar reports whether id is a plain use of a package-level variable or of a variable
+// captured by the function literal the use stands in.
+func (in *instr) sharedVar(id *ast.Ident) bool {
+	if in.pkgVars == nil || id.Name == "_" {
+		return false
+	}
+	if id.Obj == nil {
+		return in.pkgVars[id.Name] // declared in another file of the package
+	}
+	if id.Obj.Kind != ast.Var {
+		return false
+	}
+	d := id.Obj.Pos()
+	if d == id.Pos() {
+		return false // the declaration itself
+	}
+	inside := func(r [2]token.Pos, p token.Pos) bool { return r[0] <= p && p < r[1] }
+	local := false
+	for _, r := range in.funcDecls {
+		if inside(r, d) {
+			local = true
+		}
+	}
+	if !local {
+		for _, r := range in.funcLits {
+			if inside(r, d) {
+				local = true
+			}
+		}
+	}
+	if !local {
+		return true // package level, this file
+	}
+	for _, r := range in.funcLits {
+		if inside(r, id.Pos()) && !inside(r, d) {
+			return true // captured
+		}
+	}
+	return false
 }
 
 func (in *instr) list(stmts []ast.Stmt) []ast.Stmt {
@@ -135,6 +228,8 @@ func (in *instr) collect(s ast.Stmt) []ast.Stmt {
 	var hooks []ast.Stmt
 	writes := map[ast.Expr]bool{}
 	skip := map[ast.Expr]bool{}
+	skipIdent := map[*ast.Ident]bool{}
+	seenVar := map[string]bool{}
 	markLHS := func(e ast.Expr) {
 		for {
 			if p, ok := e.(*ast.ParenExpr); ok {
@@ -226,7 +321,17 @@ func (in *instr) collect(s ast.Stmt) []ast.Stmt {
 			if sel, ok := n.Fun.(*ast.SelectorExpr); ok {
 				skip[sel] = true // method value / package function, not a field read
 			}
+		case *ast.Ident:
+			if !skipIdent[n] && in.sharedVar(n) {
+				w := writes[n]
+				key := fmt.Sprint(n.Name, w)
+				if !seenVar[key] {
+					seenVar[key] = true
+					emit("V", &ast.UnaryExpr{Op: token.AND, X: ast.NewIdent(n.Name)}, boolLit(w), pos(n))
+				}
+			}
 		case *ast.SelectorExpr:
+			skipIdent[n.Sel] = true
 			if !skip[n] && in.fields[n.Sel.Name] && pure(n.X) {
 				if id, ok := n.X.(*ast.Ident); !ok || !in.pkgNames[id.Name] {
 					emit("F", n.X, &ast.BasicLit{Kind: token.STRING, Value: strconv.Quote(n.Sel.Name)}, boolLit(writes[n]), pos(n))
@@ -239,6 +344,9 @@ func (in *instr) collect(s ast.Stmt) []ast.Stmt {
 
 		case *ast.KeyValueExpr:
 			// composite literal keys are not selectors; values are walked normally
+			if id, ok := n.Key.(*ast.Ident); ok {
+				skipIdent[id] = true
+			}
 		}
 		return true
 	}
